@@ -11,13 +11,95 @@ type accessInfo struct {
 	wSite  string
 	reads  map[int]int
 	rSites map[int]string
+	// lockset detector: last write and last read per thread with the locks held
+	lw *lsAccess
+	lr map[int]*lsAccess
+}
+
+type lsAccess struct {
+	t     int
+	wc    int // weak clock of the accessing thread at the access
+	locks map[Ptr]int
+	site  string
 }
 
 type raceMon struct {
 	seen map[string]bool
+	weak map[any]vclock
 }
 
-func newRaceMon() *raceMon { return &raceMon{seen: map[string]bool{}} }
+func newRaceMon() *raceMon { return &raceMon{seen: map[string]bool{}, weak: map[any]vclock{}} }
+
+// protected: some lock is held by both accesses, in write mode by every writing access.
+func lsProtected(a map[Ptr]int, aw bool, b map[Ptr]int, bw bool) bool {
+	for l, ma := range a {
+		mb, ok := b[l]
+		if !ok {
+			continue
+		}
+		if aw && ma != 2 || bw && mb != 2 {
+			continue
+		}
+		return true
+	}
+	return false
+}
+
+// lockset check: conflicting accesses by different threads that are not ordered by
+// fork/channel/Once/WaitGroup edges and share no suitable lock are a predicted race: some
+// schedule runs them without happens-before even if this one orders them through an
+// unrelated critical section.
+func (r *raceMon) lockset(in *Interp, a *accessInfo, write bool, what string) {
+	t := in.cur
+	cur := &lsAccess{t: t.id, wc: t.wvc[t.id], locks: map[Ptr]int{}, site: ""}
+	for l, m := range t.held {
+		cur.locks[l] = m
+	}
+	check := func(prev *lsAccess, prevWrite bool) {
+		if prev == nil || prev.t == t.id || t.wvc[prev.t] >= prev.wc {
+			return
+		}
+		if lsProtected(prev.locks, prevWrite, cur.locks, write) {
+			return
+		}
+		if cur.site == "" {
+			cur.site = in.site()
+		}
+		k1, k2 := "R", "R"
+		if prevWrite {
+			k1 = "W"
+		}
+		if write {
+			k2 = "W"
+		}
+		pair := []string{k1 + " " + prev.site, k2 + " " + cur.site}
+		sort.Strings(pair)
+		label := "race: " + pair[0] + " <-> " + pair[1]
+		if r.seen[label] {
+			return
+		}
+		r.seen[label] = true
+		in.violationNow("race", label, "lockset")
+	}
+	check(a.lw, true)
+	if write {
+		for _, pr := range a.lr {
+			check(pr, false)
+		}
+	}
+	if cur.site == "" {
+		cur.site = in.site()
+	}
+	if write {
+		a.lw = cur
+		a.lr = nil
+	} else {
+		if a.lr == nil {
+			a.lr = map[int]*lsAccess{}
+		}
+		a.lr[t.id] = cur
+	}
+}
 
 func (in *Interp) site() string {
 	if in.curIns == nil {
@@ -114,6 +196,11 @@ func (r *raceMon) access(in *Interp, o *Object, slot int, write bool) {
 		o.acc[slot] = a
 	}
 	r.check(in, a, write, "memory")
+	if in.Cfg.Params["lockset"] != 0 {
+		// predictive lockset detector: experimental, off by default (publication of immutable
+		// data through a mutex makes it report many pairs that are in fact ordered)
+		r.lockset(in, a, write, "memory")
+	}
 }
 
 func (r *raceMon) accessMap(in *Interp, m *MapObj, write bool) {
@@ -124,4 +211,7 @@ func (r *raceMon) accessMap(in *Interp, m *MapObj, write bool) {
 		m.acc = &accessInfo{wT: -1}
 	}
 	r.check(in, m.acc, write, "map")
+	if in.Cfg.Params["lockset"] != 0 {
+		r.lockset(in, m.acc, write, "map")
+	}
 }
